@@ -330,6 +330,14 @@ class Pipeline:
         return out
 
 
+def small_open_triangle(ipath):
+    """integer path (tokens) of exactly three vertices, two of which are PtsReallyClose (|dx| < 2 and |dy| < 2)"""
+    if len(ipath) != 3:
+        return False
+    q = [(int(a), int(b)) for a, b in ipath]
+    return any(abs(q[i][0] - q[j][0]) < 2 and abs(q[i][1] - q[j][1]) < 2 for i, j in ((0, 1), (1, 2), (0, 2)))
+
+
 def compare(D, I, exp):
     """bitwise comparison of a D result with the expected (descaled I result). returns None or a short reason"""
     if D.kind != 'OK':
@@ -344,6 +352,13 @@ def compare(D, I, exp):
     if db == eb:
         return None
     if len(db[1]) != len(eb[1]):
+        if D.shape == I.shape and db[0] == eb[0] and len(db[1]) < len(eb[1]) and len(I.sets[1]) == len(eb[1]):
+            # one specific defect: BuildPathD applies the closed-path "very small triangle" filter to open paths
+            # (no `!isOpen &&` as in BuildPath64), so an open solution path of exactly 3 vertices with two of them
+            # less than 2 scaled units apart in x and in y is dropped.  Only that: every other path identical, in order.
+            kept = [pb for pb, pi in zip(eb[1], I.sets[1]) if not small_open_triangle(pi)]
+            if kept == db[1]:
+                return 'open-3pt-small-triangle-dropped'
         return 'open-path-count'
     if len(db[0]) != len(eb[0]):
         return 'path-count'
@@ -384,11 +399,12 @@ def judge(ctx, rec, where='gen'):
             # diagnose with the faithful model: does the model explain what the code did?
             model_explains = False
             how = why
-            if M.kind == 'OK' and M.value == 'INPUT' and D.kind == 'OK':
-                inp = [c.sets[0], []] if c.sets else None
-                if inp is not None and sets_bits(D.sets) == sets_bits(inp):
-                    model_explains = True
-                    how = 'delta0-returns-unrounded-input'
+            if (c.entry == 'inflate' and D.kind == 'OK' and bits(c.params[3]) in (0, 1 << 63) and c.sets
+                    and sets_bits(D.sets) == sets_bits([c.sets[0], []])):
+                # one specific defect, recognised from the case itself: delta == 0 and the result is bitwise the
+                # (off-grid) input, i.e. the `if (!delta) return paths;` shortcut taken before any scaling
+                model_explains = M.kind == 'OK' and M.value == 'INPUT'
+                how = 'delta0-returns-unrounded-input'
             elif M.kind == 'OK' and M.value == 'EMPTY' and D.kind == 'OK' and not any(D.sets[0]) and not any(D.sets[1]):
                 model_explains = True
                 how = 'early-empty'
@@ -770,7 +786,7 @@ def run(ctx):
     except vf.BuildFailure as e:
         viol(ctx, 'tie-break:cx_scale-build', 'harness no longer builds against the tree: %s' % str(e)[-400:], replay=None, nofail=True)
         return
-    n_gen = 1400 if ctx.quick else 12000
+    n_gen = 4000 if ctx.quick else 40000
     if not pr['ok']:
         n_gen *= 3      # search harder when a proof broke
     float_selftest(ctx, exe, oracle, 2000)
